@@ -1,6 +1,8 @@
 package main
 
 import (
+	"bytes"
+	"compress/gzip"
 	"context"
 	"fmt"
 	"net"
@@ -8,6 +10,7 @@ import (
 	"strconv"
 	"strings"
 	"sync"
+	"sync/atomic"
 	"syscall"
 	"time"
 
@@ -171,6 +174,7 @@ type run struct {
 	resume     chan struct{}
 	busyStop   chan struct{} // non-nil while the busy sender runs
 	stayArmed  bool
+	tag        string // marks the numbered messages of this run (a re-used client may still hold one of the last round)
 	garbled    []int
 	sentAt     []time.Time // long-lived connection: when numbered message n was handed to r.Out (pkg/status run: sent by the server)
 	echoSeq    []int
@@ -256,8 +260,7 @@ func (r *run) accessHandler(w http.ResponseWriter, req *http.Request) {
 	final := st.A != "ok" // the attempt ends here unless a uri is handed out
 	switch st.A {
 	case "ok":
-		w.Header().Set("Content-Type", "application/json")
-		fmt.Fprintf(w, `{"uri":"%s"}`, r.wsURL)
+		reply(w, req, 200, "application/json", fmt.Sprintf(`{"uri":"%s"}`, r.wsURL), st.H)
 	case "refuse":
 		hijackClose(w, "")
 	case "hang":
@@ -266,24 +269,20 @@ func (r *run) accessHandler(w http.ResponseWriter, req *http.Request) {
 		case <-r.finished:
 		}
 	case "4xx":
-		w.Header().Set("Content-Type", "application/json")
-		w.WriteHeader(401)
-		fmt.Fprint(w, `{"code":"401","message":"token invalid"}`)
+		reply(w, req, []int{401, 403, 429}[a.idx%3], "application/json", `{"code":"401","message":"token invalid"}`, st.H)
 	case "5xx":
-		w.WriteHeader(502)
-		fmt.Fprint(w, "502 Bad Gateway")
+		reply(w, req, []int{502, 503, 500}[a.idx%3], "", "502 Bad Gateway", st.H)
 	case "garbage":
 		if a.idx%2 == 0 {
-			fmt.Fprint(w, "<html>not json</html>")
+			reply(w, req, 200, "text/html", "<html>not json</html>", st.H)
 		} else {
 			hijackClose(w, "\x00\x01\x02 this is not HTTP\r\n\r\n")
 		}
 	case "emptyuri":
-		w.Header().Set("Content-Type", "application/json")
 		if a.idx%2 == 0 {
-			fmt.Fprint(w, `{}`)
+			reply(w, req, 200, "application/json", `{}`, st.H)
 		} else {
-			fmt.Fprint(w, `{"uri":""}`)
+			reply(w, req, 200, "application/json", `{"uri":""}`, st.H)
 		}
 	case "down":
 		hijackClose(w, "") // unreachable: the hook sends "down" to the dead port
@@ -291,6 +290,59 @@ func (r *run) accessHandler(w http.ResponseWriter, req *http.Request) {
 	if final {
 		r.endAttempt(a)
 	}
+}
+
+// reply writes an HTTP reply together with what a proxy in front of the relay might add to it
+func reply(w http.ResponseWriter, req *http.Request, code int, ctype, body, extras string) {
+	h := w.Header()
+	if ctype != "" {
+		h.Set("Content-Type", ctype)
+	}
+	gz, chunked := false, false
+	for _, x := range strings.Split(extras, "+") {
+		switch x {
+		case "ra-sec":
+			h.Set("Retry-After", "2")
+		case "ra-big":
+			h.Set("Retry-After", "99999999999")
+		case "ra-neg":
+			h.Set("Retry-After", "-5")
+		case "ra-garbage":
+			h.Set("Retry-After", "soon")
+		case "ra-date":
+			h.Set("Retry-After", time.Now().Add(3*time.Second).UTC().Format(http.TimeFormat))
+		case "close":
+			h.Set("Connection", "close")
+		case "location":
+			h.Set("Location", "http://127.0.0.1:1/elsewhere")
+		case "chunked":
+			chunked = true
+		case "gzip":
+			gz = strings.Contains(req.Header.Get("Accept-Encoding"), "gzip")
+		case "early":
+			h.Set("Link", "</app.css>; rel=preload")
+			w.WriteHeader(http.StatusEarlyHints)
+		}
+	}
+	data := []byte(body)
+	if gz {
+		var buf bytes.Buffer
+		zw := gzip.NewWriter(&buf)
+		_, _ = zw.Write(data)
+		_ = zw.Close()
+		data = buf.Bytes()
+		h.Set("Content-Encoding", "gzip")
+	}
+	w.WriteHeader(code)
+	if chunked && len(data) > 1 {
+		_, _ = w.Write(data[:len(data)/2])
+		if f, ok := w.(http.Flusher); ok {
+			f.Flush()
+		}
+		_, _ = w.Write(data[len(data)/2:])
+		return
+	}
+	_, _ = w.Write(data)
 }
 
 var upgrader = websocket.Upgrader{CheckOrigin: func(*http.Request) bool { return true }}
@@ -309,14 +361,13 @@ func (r *run) wsHandler(w http.ResponseWriter, req *http.Request) {
 	case "refuse", "down":
 		hijackClose(w, "")
 	case "4xx":
-		http.Error(w, "forbidden", 403)
+		reply(w, req, []int{403, 401, 429}[a.idx%3], "text/plain; charset=utf-8", "forbidden\n", st.H)
 	case "5xx":
-		http.Error(w, "unavailable", 503)
+		reply(w, req, []int{503, 502, 500}[a.idx%3], "text/plain; charset=utf-8", "unavailable\n", st.H)
 	case "garbage":
 		hijackClose(w, "\x00\x01\x02 this is not HTTP\r\n\r\n")
 	case "emptyuri":
-		w.Header().Set("Content-Type", "application/json")
-		fmt.Fprint(w, `{}`)
+		reply(w, req, 200, "application/json", `{}`, st.H)
 	case "hang":
 		select {
 		case <-req.Context().Done():
@@ -377,7 +428,7 @@ func (r *run) serveStay(c *websocket.Conn, a *attempt) {
 			r.mu.Lock()
 			n := len(r.sentAt)
 			r.mu.Unlock()
-			payload := fmt.Sprintf(`[{"topic":"e:%d","canRead":true,"scopes":["read"]}]`, n)
+			payload := fmt.Sprintf(`[{"topic":"e:%d:%s","canRead":true,"scopes":["read"]}]`, n, r.tag)
 			if n%5 == 4 {
 				payload = []string{"this is not json", `{"topic":"an object, not a list"}`}[(n/5)%2]
 			}
@@ -570,7 +621,11 @@ func (r *run) serveConn(c *websocket.Conn, a *attempt, st Step) {
 			}
 		}
 	}
-	// the drop: with or without a close frame
+	// the drop: in the middle of a frame (announce 4096 bytes, send 100, close), or with / without a close frame
+	if a.idx%3 == 2 {
+		_, _ = c.UnderlyingConn().Write(append([]byte{0x82, 0x7e, 0x10, 0x00}, make([]byte, 100)...))
+		return
+	}
 	if a.idx%2 == 0 {
 		_ = c.WriteControl(websocket.CloseMessage, websocket.FormatCloseMessage(websocket.CloseGoingAway, ""), time.Now().Add(time.Second))
 	}
@@ -615,7 +670,19 @@ func (c *Case) stopAllowance() time.Duration {
 	return d
 }
 
-func runLoop(c *Case) {
+// shared holds the client objects that a re-use group carries from round to round
+type shared struct {
+	rc  *reconws.ReconWs
+	cl  *client.Client
+	stw *status.Status
+}
+
+var runSeq int64
+
+func runLoop(c *Case, sh *shared) {
+	if sh == nil {
+		sh = &shared{}
+	}
 	r := &run{c: c, finished: make(chan struct{}), pauseReq: make(chan struct{}), resume: make(chan struct{}, 1)}
 	as, pa := serve(r.accessHandler, false)
 	ws, pw := serve(r.wsHandler, true)
@@ -629,7 +696,11 @@ func runLoop(c *Case) {
 	}()
 	r.wsURL = fmt.Sprintf("ws://127.0.0.1:%d/ws", pw)
 
-	rc := reconws.New()
+	if sh.rc == nil {
+		sh.rc = reconws.New()
+	}
+	rc := sh.rc
+	r.tag = fmt.Sprintf("t%d", atomic.AddInt64(&runSeq, 1))
 	rc.Retry = reconws.RetryConfig{Factor: float64(c.Factor), Min: time.Duration(c.Min), Max: time.Duration(c.Max), Timeout: 200 * time.Millisecond}
 	ctx, cancel := context.WithCancel(context.Background())
 	r.cancel = cancel
@@ -638,7 +709,10 @@ func runLoop(c *Case) {
 	var cl *client.Client
 	var stw *status.Status
 	if c.Via == "status" {
-		stw = status.New()
+		if sh.stw == nil {
+			sh.stw = status.New()
+		}
+		stw = sh.stw
 		inCh, outCh = make(chan reconws.WsMessage), make(chan reconws.WsMessage) // nothing can be sent through pkg/status
 		go func() {
 			for {
@@ -659,7 +733,10 @@ func runLoop(c *Case) {
 	}
 	if c.Via == "client" {
 		// the public wrapper: Send -> (forwarder) -> r.Out and r.In -> (forwarder) -> Receive, ReconnectAuth inside
-		cl = client.New()
+		if sh.cl == nil {
+			sh.cl = client.New()
+		}
+		cl = sh.cl
 		inCh, outCh = make(chan reconws.WsMessage), make(chan reconws.WsMessage)
 		go func() {
 			for {
@@ -698,7 +775,7 @@ func runLoop(c *Case) {
 			select {
 			case m := <-inCh:
 				parts := strings.Split(string(m.Data), ":")
-				if len(parts) == 2 && parts[0] == "e" {
+				if len(parts) == 3 && parts[0] == "e" && parts[2] == r.tag {
 					n, _ := strconv.Atoi(parts[1])
 					r.mu.Lock()
 					r.echoSeq = append(r.echoSeq, n)
@@ -758,7 +835,7 @@ func runLoop(c *Case) {
 					mt = websocket.BinaryMessage
 				}
 				select {
-				case outCh <- reconws.WsMessage{Type: mt, Data: []byte(fmt.Sprintf("e:%d", n))}:
+				case outCh <- reconws.WsMessage{Type: mt, Data: []byte(fmt.Sprintf("e:%d:%s", n, r.tag))}:
 					r.mu.Lock()
 					r.sentAt = append(r.sentAt, time.Now())
 					r.mu.Unlock()
@@ -910,12 +987,32 @@ func runAll(cases []Case, out *childOut) {
 			runBoff(c)
 			continue
 		}
+		if c.Reuse != "" {
+			if c.Round > 0 {
+				continue // run by its group, below
+			}
+			var rounds []*Case
+			for j := range cases {
+				if cases[j].Reuse != "" && cases[j].Group == c.Group {
+					rounds = append(rounds, &cases[j])
+				}
+			}
+			wg.Add(1)
+			go func() {
+				defer wg.Done()
+				sh := &shared{}
+				for _, rc := range rounds { // one after the other, on the same client object
+					runLoop(rc, sh)
+				}
+			}()
+			continue
+		}
 		wg.Add(1)
 		sem <- struct{}{}
 		go func() {
 			defer wg.Done()
 			defer func() { <-sem }()
-			runLoop(c)
+			runLoop(c, nil)
 		}()
 		time.Sleep(7 * time.Millisecond) // stagger the launches
 	}
